@@ -13,7 +13,7 @@ import itertools
 
 from tools.lib import common
 
-MODEL_FILE = "Ampverif/Model/C04Frames.lean"
+MODEL_FILE = "Ampverif/Drivers/C04Frames.lean"
 
 
 # ----------------------------------------------------------------------------- printing real trees
